@@ -179,6 +179,8 @@ class Cache:
             res.limit = None
             res.group_by = set()
             res.is_summarized = False
+            # an inner join merges the right table's filters into the joined query
+            res.is_filtered = self.is_filtered or right_cache.is_filtered
 
         elif isinstance(node, verbs.Union):
             assert right_cache is not None
